@@ -194,6 +194,56 @@ func runPair(e *concEnv, a, w concOp, g, iters int, watchdog time.Duration) stri
 	return "ok"
 }
 
+// sharedFilterRun: b = [permission token with a third-party caveat, its discharge, another token], sel = the
+// permission tokens only; one IsMissingDischarge filter value counts on both concurrently: always 0 on b (the
+// discharge is there) and always 1 on sel
+func sharedFilterRun(e *concEnv, iters int) string {
+	m, _ := macaroon.New([]byte("kid"), concLoc, e.key)
+	c3, _ := macaroon.NewCaveat3P(e.ka, concTP)
+	m.Add(c3)
+	tok, _ := m.String()
+	_, d, err := macaroon.DischargeTicket(e.ka, concTP, c3.Ticket)
+	if err != nil {
+		return "harness-error"
+	}
+	dis, _ := d.String()
+	b, perr := bundle.ParseBundle(concLoc, "FlyV1 "+tok+","+dis)
+	if perr != nil {
+		return "harness-error"
+	}
+	sel := b.Select(b.IsPermissionToken)
+	f := b.IsMissingDischarge(concTP)
+	if b.Count(f) != 0 || sel.Count(f) != 1 {
+		return fmt.Sprintf("wrong-answer(sequential:%d,%d)", b.Count(f), sel.Count(f))
+	}
+	var wrong int64
+	var wg sync.WaitGroup
+	for g := 0; g < 4; g++ {
+		wg.Add(2)
+		go func() {
+			defer wg.Done()
+			for i := 0; i < iters*10; i++ {
+				if b.Count(f) != 0 {
+					atomic.AddInt64(&wrong, 1)
+				}
+			}
+		}()
+		go func() {
+			defer wg.Done()
+			for i := 0; i < iters*10; i++ {
+				if sel.Count(f) != 1 {
+					atomic.AddInt64(&wrong, 1)
+				}
+			}
+		}()
+	}
+	wg.Wait()
+	if wrong != 0 {
+		return "wrong-answer(shared filter value, concurrent readers)"
+	}
+	return "shared-filter"
+}
+
 func famConc(r *Rng, o *Out, tier string) {
 	e := newConcEnv()
 	g, iters, wd := 4, 150, 4*time.Second
@@ -214,6 +264,9 @@ func famConc(r *Rng, o *Out, tier string) {
 		}
 	}
 	sort.Slice(all, func(i, j int) bool { return all[i].name < all[j].name })
+	// one FILTER VALUE shared by concurrent readers of a bundle and of a bundle derived from it (readers run
+	// concurrently by design): a filter must not carry state between its applications
+	o.emit("(const shared-filter)", sharedFilterRun(e, iters))
 	hangs := 0
 	for _, a := range all {
 		for _, w := range writers {
